@@ -189,7 +189,7 @@ func coqRe(x *Re) string {
 		default:
 			rs := make([]string, len(x.Cs.Rs))
 			for i, rg := range x.Cs.Rs {
-				rs[i] = fmt.Sprintf("(%d,%d)", rg[0], rg[1])
+				rs[i] = fmt.Sprintf("RG %d %d", rg[0], rg[1])
 			}
 			return fmt.Sprintf("(RSet (CsSet %s %s))", CoqBool(x.Cs.Neg), CoqList(rs))
 		}
